@@ -352,11 +352,19 @@ func init() {
 		return false
 	})
 	suites["resp"] = suite{
-		rule: "well-formed stream: random wire trees (all 16 type bytes, attrs, RESP2 nulls, streamed strings/aggregates, binary payloads with CR/LF, leading zeros, depth<=4) encoded by the harness and decoded by the real reader through bufio sizes {32,33,64,4096} x {whole,one-byte,half,random-split} readers, expected value computed from the tree (oracle); malformed stream: byte-level mutations of valid frames (sign flips, length inflation/deflation, truncation at every point, type-byte swaps, digit garbage) plus fixed hostile frames; huge declared lengths run in a child process under a 1GiB address-space limit; non-trivial = distinct input with an aggregate, attribute, chunk or malformed byte",
+		rule: "well-formed stream: large string replies (64 KiB-300 KB blob/error/verbatim, alone and nested, `!big` judged by the specification); random wire trees (all 16 type bytes, attrs, RESP2 nulls, streamed strings/aggregates, binary payloads with CR/LF, leading zeros, depth<=4) encoded by the harness and decoded by the real reader through bufio sizes {32,33,64,4096} x {whole,one-byte,half,random-split} readers, expected value computed from the tree (oracle); malformed stream: byte-level mutations of valid frames (sign flips, length inflation/deflation, truncation at every point, type-byte swaps, digit garbage) plus fixed hostile frames; huge declared lengths run in a child process under a 1GiB address-space limit; non-trivial = distinct input with an aggregate, attribute, chunk or malformed byte",
 		run:  runResp,
 		replay: func(c *Ctx, lines []string) {
 			for _, l := range lines {
 				w := strings.Fields(l)
+				if w[0] == "!big" && len(w) == 5 {
+					t, _ := strconv.Atoi(w[1])
+					n, _ := strconv.Atoi(w[2])
+					seed, _ := strconv.Atoi(w[3])
+					nested, _ := strconv.Atoi(w[4])
+					bigCase(c, byte(t), n, seed, nested, 4096, 3)
+					continue
+				}
 				bs, _ := strconv.Atoi(w[1])
 				data := []byte(unhx(w[2]))
 				if strings.HasPrefix(w[0], "!") {
@@ -408,6 +416,79 @@ func respCase(c *Ctx, data []byte, expect string, nontriv bool, isolate bool) {
 	c.Emit(op, ans, nontriv)
 }
 
+// bigPayload is reproduced by the Lean driver: byte i = (7*i + seed) mod 251
+func bigPayload(n, seed int) []byte {
+	b := make([]byte, n)
+	for i := range b {
+		b[i] = byte((7*i + seed) % 251)
+	}
+	return b
+}
+
+func bigSum(b []byte) uint32 {
+	var s uint32
+	for i, x := range b {
+		s += uint32(i+1) * uint32(x)
+	}
+	return s
+}
+
+// bigCase: one large well-formed string reply followed by `:42`, optionally both inside `*2`; the answer is a
+// digest "ok <typ> <len> <weighted-sum> <second-int> <consumed>" that the Lean side computes from the specification
+func bigCase(c *Ctx, t byte, n, seed, nested, bufSize, mode int) {
+	pl := bigPayload(n, seed)
+	var o bytes.Buffer
+	if nested == 1 {
+		o.WriteString("*2\r\n")
+	}
+	o.WriteByte(t)
+	o.WriteString(strconv.Itoa(n))
+	o.WriteString("\r\n")
+	o.Write(pl)
+	o.WriteString("\r\n:42\r\n")
+	frame := o.Len()
+	if nested == 0 {
+		frame -= 5 // the `:42` frame is the next reply and must stay unread
+	}
+	data := o.Bytes()
+	ans := func() (ans string) {
+		defer func() {
+			if r := recover(); r != nil {
+				ans = "panic"
+			}
+		}()
+		var src io.Reader = bytes.NewReader(data)
+		if mode == 3 {
+			src = &randSplit{r: src, rng: c.Rng.IntN}
+		}
+		cr := &countReader{r: src}
+		br := bufio.NewReaderSize(cr, bufSize)
+		m, err := rueidis.VerifReadNextMessage(br)
+		if err != nil {
+			return classify(err)
+		}
+		first, second := &m, int64(42)
+		if nested == 1 {
+			vs := rueidis.VerifValues(&m)
+			if len(vs) != 2 {
+				return "ok wrong-arity " + strconv.Itoa(len(vs))
+			}
+			first = &vs[0]
+			second, _ = vs[1].AsInt64()
+		} else {
+			m2, err := rueidis.VerifReadNextMessage(br)
+			if err != nil {
+				return "next:" + classify(err)
+			}
+			second, _ = m2.AsInt64()
+		}
+		str, _ := rueidis.VerifStr(first), error(nil)
+		return fmt.Sprintf("ok %d %d %d %d %d", rueidis.VerifTyp(first), len(str), bigSum([]byte(str)), second, frame)
+	}()
+	c.Hit("big:" + string(t))
+	c.Emit(fmt.Sprintf("!big %d %d %d %d", t, n, seed, nested), ans, true)
+}
+
 func runResp(c *Ctx) {
 	hostile := []string{
 		"$-2\r\n", "*-2\r\n", "%-1\r\n", "~-5\r\n", ">-3\r\n", "|-1\r\n+a\r\n", "=-2\r\n", "!-2\r\n", "$?\r\n;-2\r\n",
@@ -431,6 +512,20 @@ func runResp(c *Ctx) {
 					continue
 				}
 				respCase(c, []byte(t+decl+"\r\n"+strings.Repeat("a", got)), "", true, true)
+			}
+		}
+	}
+	// well-formed LARGE payloads (beyond the 64 KiB first reservation of readB): blob / error / verbatim, alone with a
+	// trailing frame and nested in an array, whole and randomly split reads; judged by the specification (`!big`)
+	for _, n := range []int{65535, 65536, 65537, 70000, 131072, 131073, 300001} {
+		for ti, t := range []byte("$!=") {
+			if c.Tier == "quick" && ti != 0 && n != 65537 {
+				continue
+			}
+			for _, nested := range []int{0, 1} {
+				for _, mode := range []int{0, 3} {
+					bigCase(c, t, n, 1+c.Rng.IntN(200), nested, []int{4096, 1 << 19}[c.Rng.IntN(2)], mode)
+				}
 			}
 		}
 	}
